@@ -725,7 +725,7 @@ fn build_hash_body(
         }
     };
     Ok(quote! {
-        fn hash<H: ::core::hash::Hasher>(&self, state: &mut H) {
+        fn hash<__H: ::core::hash::Hasher>(&self, state: &mut __H) {
             #body
         }
     })
@@ -746,10 +746,10 @@ fn build_hash_expr(
     if let Some(by) = &cmp.hash.by {
         return Ok(quote! {
             {
-                fn #fn_ident<__T: ?::core::marker::Sized, H: ::core::hash::Hasher>(
+                fn #fn_ident<__T: ?::core::marker::Sized, __H: ::core::hash::Hasher>(
                     this: &__T,
-                    state: &mut H,
-                    hash: impl Fn(&__T, &mut H)) {
+                    state: &mut __H,
+                    hash: impl Fn(&__T, &mut __H)) {
                     hash(this, state)
                 }
                 #fn_ident(&#this, state, #by)
